@@ -126,7 +126,7 @@ theorem PReal.mk_sel {lo hi : Pos} {k i : String} {r sel : Range} {kids : List T
 
 /-- facts about an item in arithmetic-ready form -/
 theorem PItem.facts {lo hi : Pos} {v : Tree} (h : PItem Z lo hi v) :
-    lo.le v.rng.s = true ∧ v.rng.s.le hi = true ∧ v.rng.ok = true ∧ v.rng.e.line ≤ Z.line ∧ NodeOK Z v ∧ v.isNone = false :=
+    lo.le v.rng.s = true ∧ v.rng.s.le hi = true ∧ v.rng.s.le v.rng.e = true ∧ v.rng.e.line ≤ Z.line ∧ NodeOK Z v ∧ v.isNone = false :=
   ⟨h.1, h.2.1, h.2.2.1.rng.1, h.2.2.1.rng.2, h.2.2.1, h.isNone⟩
 
 theorem terminal_real {lo hi : Pos} {v : Tree} (h : PItem Z lo hi v) : PReal Z lo hi (terminal v) := by
@@ -195,7 +195,7 @@ macro "der_alt" : tactic =>
   `(tactic| repeat' (apply Der.altL_cons))
 
 /-- transitivity chains over position facts (no arithmetic) -/
-macro "pos_chain" : tactic => `(tactic| grind [Pos.le_trans, Pos.le_refl])
+macro "pos_chain" : tactic => `(tactic| grind (ematch := 40) (gen := 40) (instances := 4000) [Pos.le_trans, Pos.le_refl])
 
 theorem Der.toks : ∀ ks : List Kind, Der Γ Δ Z F (Gram.toks ks) (PLeaf Z)
   | [] => Der.altL_nil
